@@ -118,3 +118,8 @@ Definition row_of_simple (id data set : str) (b : sbuild) : csvrow :=
                   c_dset := s; c_begin := []; c_end := []; c_key := []; c_tdata := d |}
   | BComplex _ _ => blank
   end.
+
+(* a set defined twice: every data item of either definition is in the merged set under the
+   key it was declared with; where both define an id the first definition counts *)
+Definition spec_merged (a b : dsdef) (i k : N) : Prop :=
+  In (i, k) (ds_data a) \/ (has_id i (ds_data a) = false /\ In (i, k) (ds_data b)).
